@@ -721,7 +721,7 @@ func reverseAllRings(ps []polygonI, onlyPolygons bool) []polygonI {
 
 func checkC07(e *env) {
 	r := e.res
-	r.Rule = snapRule + " C07: every case is snapped three times in this process and once in a fresh process (other map seeds); valid polygons additionally with random subsets of rings written in the opposite direction " +
+	r.Rule = snapRule + " C07: every case is snapped three times in this process and once in a fresh process (other map seeds, the cases in the opposite order); valid polygons additionally with random subsets of rings written in the opposite direction " +
 		"(must be identical) and with the reverse-winding flag flipped (must be the same geometry with every polygon ring reversed, appended points/lines unchanged)."
 	var lines []string
 	var firsts []string
@@ -785,8 +785,9 @@ func checkC07(e *env) {
 	self, _ := os.Executable()
 	tmp, err := os.CreateTemp("", "vh-c07-*.jsonl")
 	if err == nil {
-		for _, l := range lines {
-			fmt.Fprintln(tmp, l)
+		// the fresh process takes the cases in the opposite order: what was snapped before must not matter either
+		for i := len(lines) - 1; i >= 0; i-- {
+			fmt.Fprintln(tmp, lines[i])
 		}
 		tmp.Close()
 		defer os.Remove(tmp.Name())
@@ -800,9 +801,14 @@ func checkC07(e *env) {
 					got = append(got, l[4:])
 				}
 			}
+			if len(got) == len(firsts) {
+				for a, b := 0, len(got)-1; a < b; a, b = a+1, b-1 {
+					got[a], got[b] = got[b], got[a]
+				}
+			}
 			r.Dist["c07:compared-with-fresh-process"] = len(got)
 			for i := range got {
-				if i < len(firsts) && got[i] != firsts[i] {
+				if len(got) == len(firsts) && got[i] != firsts[i] {
 					r.violation(Violation{Oracle: "same-result-in-a-fresh-process", Op: kept[i].op(), Impl: firsts[i], Detail: "fresh process returned " + got[i] + " | " + kept[i].describe()})
 				}
 			}
